@@ -27,6 +27,9 @@ broadcast use {ax::axiom_strslice_ext, vstd::std_specs::hash::group_hash_axioms,
 //@item antlr/src/references.rs :: struct ExpressionReferences [pub, pubfields]
 //@verify references._references
 //@verify references.references
+pub type Expression = IdedExpr;
+//@item interpreter/src/lib.rs :: struct Program [pub, pubfields]
+//@verify lib.references
 //@extras
 } // verus!
 fn main() {}
